@@ -19,6 +19,26 @@ import (
 	"verif/simrt"
 )
 
+// A full writer queue is reported by the ljh/off writers (io.ErrShortWrite), returned by PublishData and turned
+// into a panic by its only callers, processSegment and processSecondaries: the documented fail-stop of a server
+// whose disk cannot keep up. It needs the writer goroutine of a file to fall a whole queue (1000 records)
+// behind, which a scheduling policy that starves that goroutine can produce without any injected fault. No
+// property forbids it (C07: "a record is either written completely or rejected with an error"), so in every
+// world of this package such a run simply ends there; the worlds that are about the writers (C05a, C07c)
+// recover the panic themselves and judge what the dying process left on disk.
+func init() {
+	simrt.BenignCrash = func(res *simrt.Result) string {
+		c := res.Crash
+		if c == nil || !strings.HasPrefix(strings.TrimSpace(c.Value), "short write") {
+			return ""
+		}
+		if strings.Contains(c.Stack, ".processSegment(") || strings.Contains(c.Stack, ".processSecondaries(") {
+			return "fail-stop:writer-queue-overflow"
+		}
+		return ""
+	}
+}
+
 func init() {
 	log.SetOutput(io.Discard)
 	ProblemLogger = log.New(io.Discard, "", 0)
